@@ -1,4 +1,6 @@
 """Design-level model checking (RSocketMC.tla configs) shared by the connection-level properties."""
+import os
+
 from .. import common, tlc
 
 # property -> list of (module, cfg, timeout)
@@ -43,7 +45,8 @@ def run_for(v, prop):
         module, cfg, timeout = c
         # (per-action coverage is only read for the one-interaction configurations; on the two-interaction and the large fragment
         # configurations TLC's coverage instrumentation costs tens of minutes and gigabytes)
-        cov = thorough and module == 'RSocketMC' and cfg not in ('RSocketMC_channel.cfg', 'RSocketMC_channel_frag.cfg')
+        # ... and it needs more than 6 GB of heap even for the 45-state configuration: only on request (VERIF_TLC_COVERAGE=1, heap cap lifted)
+        cov = bool(os.environ.get('VERIF_TLC_COVERAGE')) and thorough and module == 'RSocketMC' and cfg not in ('RSocketMC_channel.cfg', 'RSocketMC_channel_frag.cfg')
         return c, tlc.run(module, cfg, coverage=cov, timeout=timeout, workers=4 if thorough else 2, name='mc_' + cfg.replace('.cfg', ''))
 
     with ThreadPoolExecutor(max_workers=2 if thorough else 7) as ex:
@@ -60,7 +63,7 @@ def run_for(v, prop):
             v.add_failure('%s.design_%s' % (prop, r.violated), {'cfg': cfg}, 'TLC: %s violated in the design model %s' % (r.violated, cfg))
         v.add('states', r.distinct)
         v.add('transitions', r.generated)
-        if thorough and module == 'RSocketMC' and cfg not in ('RSocketMC_channel.cfg', 'RSocketMC_channel_frag.cfg'):
+        if os.environ.get('VERIF_TLC_COVERAGE') and thorough and module == 'RSocketMC' and cfg not in ('RSocketMC_channel.cfg', 'RSocketMC_channel_frag.cfg'):
             cov = r.coverage()
             kind = 'rr' if '_rr' in cfg else ('stream' if '_stream' in cfg else 'channel')
             if 'witness' in cfg:
